@@ -136,4 +136,8 @@ for _p, _why in {
         NOT_APPLICABLE[_p] = _why
 
 NOTES = ('Technique family: static analysis. All checks share one fact extraction (driver/) per tree state, cached under .cache/ by a hash of '
-         '/repo\'s working tree; every run re-hashes /repo. Exit 0 = all rule instances hold (known findings aside), 1 = VIOLATION, 2 = CHECK-ERROR.')
+         '/repo\'s working tree; every run re-hashes /repo. Exit 0 = all rule instances hold (known findings aside), 1 = VIOLATION, 2 = CHECK-ERROR. '
+         'Known findings: /verif/known_findings.json (committed; `finding` rows print KNOWN-FINDING lines and are matched by exact (property, rule, key); '
+         '`fixed` rows document the fix: commits made to /repo and suppress nothing). No hooks: /repo carries only unguarded fix: commits. '
+         'Seeded changes by independent sub-agents: /verif/seeded/<id>/ (patch.diff, demo.diff, notes.md, meta.json); they and selftest/ form the '
+         'checker-must-fire suite run by the thorough tier on scratch copies of the current tree (never on /repo).')
